@@ -47,8 +47,8 @@ structure WithFact where
 
 `
 
-// rootAndPath splits h2.a.b / (*p).x / a[i].f into its root identifier and the remaining path.
-func rootAndPath(e ast.Expr) (string, string, bool) {
+// cloneRootAndPath splits h2.a.b / (*p).x / a[i].f into its root identifier and the remaining path.
+func cloneRootAndPath(e ast.Expr) (string, string, bool) {
 	var path []string
 	for {
 		switch x := e.(type) {
@@ -86,14 +86,14 @@ func cloneLeanStrList(xs []string) string {
 	return "[" + strings.Join(q, ", ") + "]"
 }
 
-func recvName(fd *ast.FuncDecl) string {
+func cloneRecvName(fd *ast.FuncDecl) string {
 	if fd.Recv != nil && len(fd.Recv.List) == 1 && len(fd.Recv.List[0].Names) == 1 {
 		return fd.Recv.List[0].Names[0].Name
 	}
 	return ""
 }
 
-func structFieldNames(f *ast.File, typ string) []string {
+func cloneStructFieldNames(f *ast.File, typ string) []string {
 	var out []string
 	for _, d := range f.Decls {
 		gd, ok := d.(*ast.GenDecl)
@@ -133,12 +133,12 @@ type cloneFact struct {
 }
 
 func cloneFacts(f *ast.File, typ string) cloneFact {
-	cf := cloneFact{Handler: typ, StructFields: structFieldNames(f, typ)}
+	cf := cloneFact{Handler: typ, StructFields: cloneStructFieldNames(f, typ)}
 	fd := findFunc(f, typ, "clone")
 	if fd == nil || fd.Body == nil {
 		die("%s.clone not found", typ)
 	}
-	recv := recvName(fd)
+	recv := cloneRecvName(fd)
 	if len(fd.Body.List) != 1 {
 		return cf
 	}
@@ -187,7 +187,7 @@ func cloneFacts(f *ast.File, typ string) cloneFact {
 	return cf
 }
 
-type withFact struct {
+type cloneWithFact struct {
 	Handler          string      `json:"handler"`
 	Method           string      `json:"method"`
 	Recv             string      `json:"recv"`
@@ -198,12 +198,12 @@ type withFact struct {
 	Returns          []string    `json:"returns"`
 }
 
-func withFacts(f *ast.File, typ, method string) withFact {
+func cloneWithFacts(f *ast.File, typ, method string) cloneWithFact {
 	fd := findFunc(f, typ, method)
 	if fd == nil || fd.Body == nil {
 		die("%s.%s not found", typ, method)
 	}
-	wf := withFact{Handler: typ, Method: method, Recv: recvName(fd)}
+	wf := cloneWithFact{Handler: typ, Method: method, Recv: cloneRecvName(fd)}
 	// first statement: if len(p) == 0 { return recv }
 	if len(fd.Body.List) > 0 {
 		if is, ok := fd.Body.List[0].(*ast.IfStmt); ok && is.Init == nil && is.Else == nil && len(is.Body.List) == 1 {
@@ -220,7 +220,7 @@ func withFacts(f *ast.File, typ, method string) withFact {
 	}
 	seenW := map[[2]string]bool{}
 	addWrite := func(e ast.Expr) {
-		root, path, ok := rootAndPath(e)
+		root, path, ok := cloneRootAndPath(e)
 		if !ok {
 			root, path = "?", types.ExprString(e)
 		}
@@ -282,14 +282,14 @@ func withFacts(f *ast.File, typ, method string) withFact {
 
 func extractLoggerClone() {
 	l := newLean("LoggerClone", "logger/{json_handler,text_handler,nano_handler,logger}.go")
-	l.printf("%s", loggerCloneHeader)
+	l.printf("namespace LoggerClone\n\n%s", loggerCloneHeader)
 	files := map[string]string{
 		"JsonHandler": "logger/json_handler.go",
 		"TextHandler": "logger/text_handler.go",
 		"NanoHandler": "logger/nano_handler.go",
 	}
 	short := map[string]string{"JsonHandler": "json", "TextHandler": "text", "NanoHandler": "nano"}
-	emitWith := func(name string, wf withFact) {
+	emitWith := func(name string, wf cloneWithFact) {
 		ws := make([]string, len(wf.Writes))
 		for i, w := range wf.Writes {
 			ws[i] = "(" + cloneLeanStr(w[0]) + ", " + cloneLeanStr(w[1]) + ")"
@@ -314,11 +314,12 @@ func extractLoggerClone() {
 		l.printf("/-- `%s.clone()` hands the child `slices.Clip(h.preformatted)` -/\ndef %sCloneClips : Bool := %v\n\n", typ, short[typ], clips)
 		facts["loggerClone."+short[typ]+"Clone"] = cf
 		facts["loggerClone."+short[typ]+"CloneClips"] = clips
-		emitWith(short[typ]+"WithAttrs", withFacts(f, typ, "WithAttrs"))
-		emitWith(short[typ]+"WithGroup", withFacts(f, typ, "WithGroup"))
+		emitWith(short[typ]+"WithAttrs", cloneWithFacts(f, typ, "WithAttrs"))
+		emitWith(short[typ]+"WithGroup", cloneWithFacts(f, typ, "WithGroup"))
 	}
 	lf := parseFile("logger/logger.go")
-	emitWith("loggerWith", withFacts(lf, "Logger", "With"))
-	emitWith("loggerWithGroup", withFacts(lf, "Logger", "WithGroup"))
+	emitWith("loggerWith", cloneWithFacts(lf, "Logger", "With"))
+	emitWith("loggerWithGroup", cloneWithFacts(lf, "Logger", "WithGroup"))
+	l.printf("end LoggerClone\n")
 	l.write()
 }
